@@ -139,3 +139,19 @@ CHECKS["C17"] = {
         _sub("TestC17_KV", 5000, 200000, sq=16, st=16),
     ],
 }
+
+CHECKS["C19"] = {
+    "level": "exploration",
+    "race": True,
+    "subs": [
+        _sub("TestC19_Threads", 640, 24000, sq=8, st=8),
+    ],
+    "watchdog": {"quick": 900, "thorough": 7200},
+}
+
+CHECKS["C03"] = {
+    "level": "exploration",
+    "subs": [
+        _sub("TestC03_Sched", 12000, 400000, sq=16, st=16),
+    ],
+}
